@@ -29,7 +29,7 @@ ASSUMPTIONS = ['no conditional request headers are sent (answering them is the p
 REQUIRED_REACH = ['gzip:vary-on-uncompressed', 'mw:gzip', 'mw:cache', 'mw:stats', 'mw:profile', 'mw:cookie', 'mw:cookie-expiry', 'mw:ctx', 'mw:simplectx',
                   'mw:getparam', 'mw:postdata', 'mw:scriptroot', 'kind:404', 'kind:405', 'kind:500', 'kind:redirect',
                   'kind:http-raised', 'kind:http-returned', 'kind:rendered', 'kind:nonbreaking', 'gzip:compressed',
-                  'gzip:not-compressed-by-choice', 'gzip:client-does-not-accept', 'pairs-compared', 'head-compared']
+                  'gzip:not-compressed-by-choice', 'gzip:client-does-not-accept', 'pairs-compared', 'head-compared', 'kind:app-status', 'kind:raw-path']
 NSHARDS = 16
 MW_NAMES = ['gzip', 'cache', 'stats', 'profile', 'cookie', 'cookie-expiry', 'cookie-never', 'ctx', 'simplectx', 'getparam', 'getparam-typed',
             'postdata', 'scriptroot']
@@ -96,6 +96,13 @@ def build_app(stack, rnd_blob):
         Route('/post', lambda request: Response('posted %r' % sorted(request.form.items()), mimetype='text/plain'), methods=['POST']),
         Route('/stream', lambda: Response((('part %d ' % i) * 50 for i in range(20)), mimetype='text/plain')),
         Route('/redirect301', lambda: Response('', status=301, headers={'Location': 'http://verif.test/text'})),
+        # full Responses made by the application itself with a status other than 200 and a body worth compressing
+        Route('/created', lambda: Response('created item ' * 200, status=201, mimetype='text/plain', headers={'Location': 'http://verif.test/item/7'})),
+        Route('/found', lambda: Response('<a href="/text">moved</a> ' * 100, status=302, mimetype='text/html', headers={'Location': 'http://verif.test/text'})),
+        Route('/app404', lambda: Response('nothing of that name here ' * 80, status=404, mimetype='text/plain')),
+        Route('/app503', lambda: Response('{"state": "maintenance", "pad": "%s"}' % ('x' * 2000), status=503, mimetype='application/json', headers={'Retry-After': '120'})),
+        Route('/accepted', lambda: Response('queued ' * 300, status=202, mimetype='text/plain')),
+        Route('/seg/<x>', lambda x: Response('segment %r ' % x * 30, mimetype='text/plain')),
     ]
     return Application(routes, middlewares=[make_mw(n) for n in stack])
 
@@ -113,6 +120,10 @@ REQUESTS = [
     ('404', 'GET', '/no/such/url', b''), ('404', 'POST', '/nothing', b'a=1'), ('405', 'POST', '/only-get', b'x=1'),
     ('405', 'DELETE', '/only-get', b''), ('text', 'POST', '/post', b'unused_f=1&z=2'), ('text', 'GET', '/stream', b''),
     ('text', 'GET', '/text', b''),
+    ('app-status', 'GET', '/created', b''), ('app-status', 'GET', '/found', b''), ('app-status', 'GET', '/app404', b''), ('app-status', 'GET', '/app503', b''),
+    ('app-status', 'GET', '/accepted', b''),
+    ('text', 'GET', '/seg/caf\u00e9', b''), ('raw-path', 'GET', 'raw:/seg/caf\xe9', b''), ('raw-path', 'GET', 'raw:/seg/\xff\xfe', b''),
+    ('raw-path', 'GET', 'raw:/nope/\xe9t\xe9', b''), ('raw-path', 'GET', 'raw:/seg/ab\xc3', b''), ('raw-path', 'POST', 'raw:/only-get\xa0', b'x=1'),
 ]
 
 
@@ -145,6 +156,9 @@ def exchange(app, method, path, body, ae, accept=None, query='unused_q=7'):
         h['Accept'] = accept
     if method == 'POST':
         h['Content-Type'] = 'application/x-www-form-urlencoded'
+    if path.startswith('raw:'):
+        # PATH_INFO exactly as a server hands it over: bytes (as Latin-1 text) that need not be UTF-8
+        return probe.request(app, method, path[4:], query, headers=h, body=body, raw_path=True)
     return probe.request(app, method, path, query, headers=h, body=body)
 
 
